@@ -171,7 +171,28 @@ pub fn lib_strategy() -> impl Strategy<Value = LibCase> {
         allow_attrs: true,
         many_tiny: false,
     };
-    (g::archive_strategy(params), proptest::collection::vec(dir_name(), 8), extract_strategy()).prop_map(|(mut spec, names, extract)| {
+    // one archive in three puts all its files below ONE directory chain that every file spells in its own
+    // letter case (Interface\Icons, INTERFACE\icons, …): different directories on a case-sensitive file system
+    let shared = (0u8..3, 0usize..4, 0usize..5, proptest::collection::vec((0u8..3, 0u8..3, any::<bool>()), 8));
+    (g::archive_strategy(params), proptest::collection::vec(dir_name(), 8), extract_strategy(), shared).prop_map(|(mut spec, mut names, extract, (mode, d1, d2, cases))| {
+        if mode == 0 {
+            const POOL: [&str; 4] = ["Interface", "Icons", "World", "Maps"];
+            let spell = |n: &str, c: u8| match c {
+                0 => n.to_string(),
+                1 => n.to_ascii_uppercase(),
+                _ => n.to_ascii_lowercase(),
+            };
+            for (n, (c1, c2, bs)) in names.iter_mut().zip(cases.iter()) {
+                let leaf = n.rsplit(['\\', '/']).next().unwrap().to_string();
+                let sep = if *bs { '\\' } else { '/' };
+                let mut s = format!("{}{sep}", spell(POOL[d1], *c1));
+                if d2 < 4 {
+                    s.push_str(&format!("{}{sep}", spell(POOL[d2], *c2)));
+                }
+                s.push_str(&leaf);
+                *n = s;
+            }
+        }
         // own names: unique (case-insensitively) full names *and* basenames, so that
         // extraction without --preserve-paths cannot overwrite one file with another
         let mut seen_full = BTreeSet::new();
@@ -606,6 +627,14 @@ pub fn run_lib(check: &Check, c: &LibCase) -> Result<(), Fail> {
     bump_extract(check, &c.extract, missing.len(), has_dirs);
     if present.iter().any(|n| n.len() > 80) {
         check.bump("list:name-longer-than-80", 1);
+    }
+    if c.extract.preserve && c.extract.explicit.is_none() {
+        // the same directory spelled in two letter cases, both to be created
+        let parents: BTreeSet<String> = present.iter().filter_map(|n| n.replace('/', "\\").rsplit_once('\\').map(|(d, _)| d.to_string())).collect();
+        let folded: BTreeSet<String> = parents.iter().map(|d| d.to_ascii_lowercase()).collect();
+        if folded.len() < parents.len() {
+            check.bump("extract:preserve-dirs-in-two-letter-cases", 1);
+        }
     }
     let ctx = "lib".to_string();
 
